@@ -529,6 +529,12 @@ impl<W: 'static, R: SeedableRng + RngCore + 'static, T: 'static> XSequence<W, R,
             len <= size_of_set
         };
 
+        // the pool method holds every element at once, the pick method k indices and then k elements
+        rt.can_allocate(
+            (if use_pool { len } else { k })
+                .saturating_mul(size_of::<Rc<ManagedXValue<W, R, T>>>()),
+        )?;
+
         if use_pool {
             let mut pool =
                 forward_err!(self
